@@ -53,3 +53,10 @@ Proof. vm_compute. reflexivity. Qed.
 (* non-vacuity of the Panic modelling: the same scalar read without the guard does panic in the model *)
 Example C03_unguarded_read_panics : unmarshal false bt_uint16 bt_uint16 false [7] = Panic P_Index.
 Proof. vm_compute. reflexivity. Qed.
+
+(* the raw decoder stops on every byte string and never reaches the model's "impossible" branches: no error code 98 (fuel of the
+   model's loops exhausted -- every iteration consumes at least one byte) and no code 97 *)
+From Fit Require Import Proofs.RawTotal.
+Theorem C03_raw_total : forall bs, let '(_, _, e) := raw_decode bs in e <> Some 97 /\ e <> Some 98.
+Proof. exact raw_decode_total. Qed.
+Print Assumptions C03_raw_total.
